@@ -29,6 +29,8 @@ respect to a quad symbol, every integrand is the real upart*/vpart* at a symboli
   split.*         every split point (any zero of the root function the code pairs with an integrand) is a zero
                   of that integrand
   so_wave         physical <-> dimensionless conversion through the public SuOlson class
+  so_wave.real_valued   the public call returns real temperatures when u, v carry the (observed) quadrature error
+                  and come out slightly negative  -- VIOLATED on the unfixed code: (negative float)**0.25 is complex
 
 Differentiation under the integral sign, the Riemann-Lebesgue lemma / Dirichlet integral and the accuracy of
 the quadrature are the analytic steps that are NOT encoded (see OUTSIDE).
@@ -65,7 +67,8 @@ BOUNDS = ['integration variable strictly inside the 1e-14 regularisation clamps 
           'both branches of all four integrals are explored for every input',
           'float literals rt3 = 1.7320508075688772 and the CGS constants are compared with sqrt(3), c, a, k_B within the '
           'relative tolerances stated in the claim labels',
-          'so_wave obligation: usolution/vsolution replaced by arbitrary non-negative values u, v; one position per call '
+          'so_wave obligations: usolution/vsolution replaced by arbitrary values u, v >= 0 (so_wave) or >= -1e-6 '
+          '(so_wave.real_valued); one position per call '
           '(the state left behind by earlier positions/calls is the symbolic stale common block of structure.*)']
 OUTSIDE = ['that the weighted integrals converge and may be differentiated under the integral sign; accuracy, truncation '
            '(loop stops when a piece is below 1e-8) and tolerance of quad/brentq',
@@ -563,6 +566,9 @@ def kernel_domain(V, fam1=True, fam2=True, stale=True):
         d += _inside(e1) + _inside(e1p) + [T.eq(T.add(T.mul(e1, e1), T.mul(e1p, e1p)), T.ONE)]
     if fam2:
         d += _inside(V('eta')) + [T.gt(T.mul(V('eta'), V('eps')), T.const(TINY))]
+        if stale:
+            # the earlier call was a valid one too: its epsilon keeps the clamps inactive as well
+            d.append(T.gt(T.mul(V('eta'), V('eps_prev')), T.const(TINY)))
     return d
 
 
@@ -655,6 +661,9 @@ class Weights(Kernel):
         cx.eq('weight of INT vpart1 = weight of INT upart1', cv1(cx), cu1(cx))
         cx.eq('weight of INT vpart2 = -(weight of INT upart2)', cv2(cx), -cu2(cx))
         cx.eq('weight of uans in v is 1', cx['v:c_uans'], 1)
+        for w in 'uv':
+            for nm, inp in (('posx', 'x'), ('tau', 'tau'), ('epsilon', 'eps')):
+                cx.eq('%ssolution leaves %s_in in the common block' % (w, nm), cx['%s:cb_%s' % (w, nm)], cx.p(inp))
         for name, f in (('upart1', cu1), ('upart2', cu2), ('vpart1', cv1), ('vpart2', cv2)):
             cx.eq('weight of INT %s does not depend on x' % name, d_dx(cx, f), 0, scale=sc)
             if name.endswith('1'):
